@@ -170,6 +170,164 @@ func scenarioSessionDeadline(ctx *RunCtx) {
 	}
 }
 
+// C10, rotation: "every refresh token works at most once and the response carries its replacement"
+// whatever the embedder's ShouldIssueRefreshTokenFunc answers for the REFRESHED grant info (grant type
+// refresh_token, possibly narrowed scopes).  Code and CIBA grants, each policy, refreshes that keep and
+// that drop offline_access, then a replay of every used refresh token.
+func scenarioRotationPolicy(ctx *RunCtx) {
+	for _, fl := range []string{"copy", "alias"} {
+		for _, pol := range []string{"IssueAlways", "IssueIfOffline", "IssueCodeOnly"} {
+			for _, rotation := range []bool{true, false} {
+				opts := []Opt{{Name: "WithScopes", Scopes: serverScopes}, {Name: "WithAuthorizationCodeGrant"},
+					{Name: "WithRefreshTokenGrant", Z: 600, S: pol}, {Name: "WithTokenIntrospection"}, {Name: "WithTokenLifetime", Z: 80}}
+				if rotation {
+					opts = append(opts, Opt{Name: "WithRefreshTokenRotation"})
+				}
+				g, err := NewSysGen(ctx.R, WorldSpec{Profile: "openid", Flavour: fl, Static: baseClients(ctx.R), Opts: opts})
+				if err != nil {
+					panic(err)
+				}
+				cred := Cred{ID: 1, OK: true}
+				p := Params{Redirect: "https://c1.example/cb", RespType: "code", Scopes: "openid email offline_access", State: "st-1"}
+				nav := g.do(Op{Kind: "Authorize", Client: 1, Params: p, PolicyAvail: true, Pol: Pol{Kind: "PolSuccess", Sub: "alice", Granted: "openid email offline_access"}})
+				tok := g.do(Op{Kind: "Token", Grant: "authorization_code", Cred: cred, Code: nav.NCode, Redirect: p.Redirect, HG: "HgOk", BA: "BaApprove"})
+				if tok.Kind != "Tokens" || tok.Rt == 0 {
+					panic(fmt.Sprintf("c10 rotation scenario: no refresh token from the code flow: %+v", tok))
+				}
+				used := []Handle{}
+				rt := tok.Rt
+				for _, sc := range []string{"openid email", "", "openid offline_access", "openid"} {
+					o := g.do(Op{Kind: "Token", Grant: "refresh_token", Cred: cred, Refresh: rt, Scope: sc, HG: "HgOk", BA: "BaApprove"})
+					used = append(used, rt)
+					if o.Kind == "Tokens" && o.Rt != 0 {
+						rt = o.Rt
+					}
+					g.doTick(7)
+				}
+				for _, u := range used {
+					g.do(Op{Kind: "Token", Grant: "refresh_token", Cred: cred, Refresh: u, HG: "HgOk", BA: "BaApprove"})
+					g.do(Op{Kind: "Introspect", Cred: cred, Tok: PTok{Kind: "PExact", H: u}, Allowed: true})
+				}
+				ctx.AddCase(g.Case(fmt.Sprintf("scenario:rotation-policy/%s/rotation=%v/%s", pol, rotation, fl)))
+				ctx.AddStats(g.stats)
+			}
+		}
+	}
+}
+
+// C04 / C10: the owner grants a STRICT SUBSET of the scopes and of the resources that were requested
+// (code flow through the policy, CIBA through InitBackAuthFunc, poll and ping modes).  The first token
+// and every token of the following refresh chain - refreshes naming nothing, the denied scope, the denied
+// resource, a legal narrowing, then nothing again - must stay inside what was granted.
+func scenarioGrantedSubset(ctx *RunCtx) {
+	resA, resB := "https://api.example/a", "https://api.example/b"
+	for _, fl := range []string{"copy", "alias"} {
+		for _, flow := range []string{"code", "ciba-poll", "ciba-ping"} {
+			for _, rotation := range []bool{false, true} {
+				opts := []Opt{{Name: "WithScopes", Scopes: serverScopes}, {Name: "WithAuthorizationCodeGrant"}, {Name: "WithCIBAGrant"},
+					{Name: "WithRefreshTokenGrant", Z: 600}, {Name: "WithTokenIntrospection"}, {Name: "WithTokenLifetime", Z: 80},
+					{Name: "WithResourceIndicators", S: resA, L: []string{resB}}}
+				if rotation {
+					opts = append(opts, Opt{Name: "WithRefreshTokenRotation"})
+				}
+				g, err := NewSysGen(ctx.R, WorldSpec{Profile: "openid", Flavour: fl, Static: append(baseClients(ctx.R), cibaClients()...), Opts: opts})
+				if err != nil {
+					panic(err)
+				}
+				var tok Obs
+				var cred Cred
+				switch flow {
+				case "code":
+					cred = Cred{ID: 1, OK: true}
+					p := Params{Redirect: "https://c1.example/cb", RespType: "code", Scopes: "openid email profile", State: "st-1", Resources: []string{resA, resB}}
+					nav := g.do(Op{Kind: "Authorize", Client: 1, Params: p, PolicyAvail: true,
+						Pol: Pol{Kind: "PolSuccess", Sub: "alice", Granted: "openid email", Resources: []string{resA}}})
+					tok = g.do(Op{Kind: "Token", Grant: "authorization_code", Cred: cred, Code: nav.NCode, Redirect: p.Redirect, HG: "HgOk", BA: "BaApprove"})
+				default:
+					id := map[string]int{"ciba-poll": 5, "ciba-ping": 6}[flow]
+					cred = Cred{ID: id, OK: true}
+					p := Params{Scopes: "openid email", LoginHint: "alice", Resources: []string{resA, resB}}
+					if flow == "ciba-ping" {
+						p.NotifToken = unknownBase + 5000
+					}
+					bc := g.do(Op{Kind: "BcAuthorize", Cred: cred, Params: p, InitOK: true, Sub: "alice", Granted: "openid", GrantedRes: []string{resA}})
+					tok = g.do(Op{Kind: "Token", Grant: "urn:openid:params:grant-type:ciba", Cred: cred, AuthReq: bc.H, HG: "HgOk", BA: "BaApprove"})
+				}
+				if tok.Kind != "Tokens" || tok.Rt == 0 {
+					panic(fmt.Sprintf("granted-subset scenario (%s): no tokens: %+v", flow, tok))
+				}
+				rt := tok.Rt
+				for _, rq := range []struct {
+					scope string
+					res   []string
+				}{{"", nil}, {"openid email profile", nil}, {"openid email", nil}, {"", []string{resB}}, {"", []string{resA, resB}}, {"openid", []string{resA}}, {"", nil}} {
+					o := g.do(Op{Kind: "Token", Grant: "refresh_token", Cred: cred, Refresh: rt, Scope: rq.scope, Resources: rq.res, HG: "HgOk", BA: "BaApprove"})
+					if o.Kind == "Tokens" {
+						if o.Rt != 0 {
+							rt = o.Rt
+						}
+						g.do(Op{Kind: "Introspect", Cred: cred, Tok: PTok{Kind: "PExact", H: o.At}, Allowed: true})
+					}
+				}
+				ctx.AddCase(g.Case(fmt.Sprintf("scenario:granted-subset/%s/rotation=%v/%s", flow, rotation, fl)))
+				ctx.AddStats(g.stats)
+			}
+		}
+	}
+}
+
+// C16: "a denial ends it".  For every delivery mode: the request is denied (failure notification through the
+// provider API; for poll/ping also the embedder's validation answering deny / fail at a poll), then every
+// way of obtaining tokens for the same auth_req_id is tried: success notification, poll by the initiating
+// client with an approving validation, poll by another client, a second denial.
+func scenarioCibaDenialEnds(ctx *RunCtx) {
+	for _, fl := range []string{"copy", "alias"} {
+		for _, id := range []int{5, 6, 7} { // poll, ping, push
+			for _, first := range []string{"NotifyFail", "PollDeny", "PollFail", "NotifyOk"} {
+				if id == 7 && (first == "PollDeny" || first == "PollFail") {
+					continue
+				}
+				opts := []Opt{{Name: "WithScopes", Scopes: serverScopes}, {Name: "WithCIBAGrant"}, {Name: "WithRefreshTokenGrant", Z: 600},
+					{Name: "WithTokenIntrospection"}, {Name: "WithTokenLifetime", Z: 80}}
+				g, err := NewSysGen(ctx.R, WorldSpec{Profile: "openid", Flavour: fl, Static: append(baseClients(ctx.R), cibaClients()...), Opts: opts})
+				if err != nil {
+					panic(err)
+				}
+				cred := Cred{ID: id, OK: true}
+				p := Params{Scopes: "openid email", LoginHint: "alice"}
+				if id != 5 {
+					p.NotifToken = unknownBase + 5000
+				}
+				bc := g.do(Op{Kind: "BcAuthorize", Cred: cred, Params: p, InitOK: true, Sub: "alice", Granted: "openid email"})
+				if bc.Kind != "Ciba" {
+					panic(fmt.Sprintf("c16 denial scenario: no auth_req_id: %+v", bc))
+				}
+				poll := func(c Cred, ba string) {
+					g.do(Op{Kind: "Token", Grant: "urn:openid:params:grant-type:ciba", Cred: c, AuthReq: bc.H, HG: "HgOk", BA: ba})
+				}
+				switch first {
+				case "NotifyFail":
+					g.do(Op{Kind: "NotifyFail", AuthReq: bc.H, HG: "HgOk"})
+				case "PollDeny":
+					poll(cred, "BaDeny")
+				case "PollFail":
+					poll(cred, "BaFail")
+				case "NotifyOk":
+					g.do(Op{Kind: "NotifyOk", AuthReq: bc.H, HG: "HgOk"})
+				}
+				g.do(Op{Kind: "NotifyOk", AuthReq: bc.H, HG: "HgOk"})
+				poll(cred, "BaApprove")
+				poll(Cred{ID: 5 + (id-4)%3, OK: true}, "BaApprove")
+				g.do(Op{Kind: "NotifyFail", AuthReq: bc.H, HG: "HgOk"})
+				g.do(Op{Kind: "NotifyOk", AuthReq: bc.H, HG: "HgOk"})
+				poll(cred, "BaApprove")
+				ctx.AddCase(g.Case(fmt.Sprintf("scenario:ciba-denial-ends/c%d/%s/%s", id, first, fl)))
+				ctx.AddStats(g.stats)
+			}
+		}
+	}
+}
+
 func init() {
 	register(&Suite{Name: "c05", Run: func(ctx *RunCtx) {
 		scenarioRevokeExpired(ctx)
@@ -234,14 +392,14 @@ func init() {
 	}})
 	histSuite("c10", "mon_C10x", "refresh chains of 1-30 refreshes with requested sub/supersets, by the owning or another client, ticks up to and beyond the grant lifetime, rotation on and off, grants from authorization_code and CIBA; introspection of refresh tokens",
 		100, 4000, 40, map[string]bool{"refresh": true, "ciba": true},
-		map[string]int{"authorize": 10, "callback": 4, "par": 1, "code": 12, "refresh": 34, "cc": 1, "query": 16, "tick": 9, "bc": 5, "poll": 7, "notify": 1}, 30)
+		map[string]int{"authorize": 10, "callback": 4, "par": 1, "code": 12, "refresh": 34, "cc": 1, "query": 16, "tick": 9, "bc": 5, "poll": 7, "notify": 1}, 30, scenarioRotationPolicy, scenarioGrantedSubset)
 	histSuite("c16", "mon_C16", "CIBA histories over poll/ping/push clients with user code, scripted embedder decisions (pending, slow down, approve, deny, error), polls by the initiating or another client, ticks across the request lifetime, success/failure notifications through the provider API",
 		120, 4000, 34, map[string]bool{"ciba": true, "refresh": true},
-		map[string]int{"authorize": 2, "callback": 1, "par": 1, "code": 2, "refresh": 5, "cc": 1, "query": 10, "tick": 9, "bc": 24, "poll": 30, "notify": 14}, 30)
+		map[string]int{"authorize": 2, "callback": 1, "par": 1, "code": 2, "refresh": 5, "cc": 1, "query": 10, "tick": 9, "bc": 24, "poll": 30, "notify": 14}, 30, scenarioCibaDenialEnds)
 	histSuite("c17", "mon_C17", "interleavings of several users' and clients' interactive flows with multi-step policies (succeed, fail, abandoned), ticks across the session timeout, stale/foreign/unknown callback ids, flows started from pushed requests",
 		120, 4000, 36, map[string]bool{"par": true},
 		map[string]int{"authorize": 26, "callback": 30, "par": 10, "code": 8, "refresh": 2, "cc": 1, "query": 8, "tick": 9, "bc": 1, "poll": 1, "notify": 1}, 30, scenarioSessionDeadline)
 	histSuite("c04flow", "mon_C04", "histories over all grant types with requested scope sub/supersets, refresh chains, introspection and userinfo of every token",
 		80, 3000, 36, map[string]bool{"refresh": true, "implicit": true},
-		map[string]int{"authorize": 14, "callback": 6, "par": 3, "code": 16, "refresh": 18, "cc": 8, "query": 20, "tick": 3, "bc": 4, "poll": 6, "notify": 2}, 30)
+		map[string]int{"authorize": 14, "callback": 6, "par": 3, "code": 16, "refresh": 18, "cc": 8, "query": 20, "tick": 3, "bc": 4, "poll": 6, "notify": 2}, 30, scenarioGrantedSubset)
 }
